@@ -32,18 +32,29 @@ pub struct Case {
 }
 
 fn case_strategy(k: usize, env: &Env) -> BoxedStrategy<Case> {
-    (gcase(k, env, false), any::<u32>(), proptest::collection::vec(prop_oneof![Just(0u8), any::<u8>()], 4), 0u8..4)
+    (gcase(k, env, false), any::<u32>(), proptest::collection::vec(prop_oneof![Just(0u8), any::<u8>()], 4), 0u8..5)
         .prop_map(|(g, mask, bexts, pipeline)| Case { g, mask, bexts, pipeline })
         .boxed()
 }
 
 type TableRow = (u8, u16, Vec<u8>);
 
-fn real_table<K: Kmer>(reads: &[Read], stranded: bool) -> Result<BTreeMap<Seq, TableRow>, String> {
+fn real_table<K: Kmer>(reads: &[Read], stranded: bool, slices: usize) -> Result<BTreeMap<Seq, TableRow>, String> {
     let seqs = to_seqs(reads);
-    let (a, _) = filter_kmers::<K, DnaBytes, u8, u16, CountFilter>(&seqs, &Box::new(CountFilter::new(1)), stranded, false, 1);
+    // the table must not depend on the number of bucket passes either: force `slices` planned slices
+    let input_kmers: usize = reads.iter().map(|r| r.seq.len().saturating_sub(K::k() - 1)).sum();
+    let kmer_mem = input_kmers * std::mem::size_of::<(K, u8)>();
+    let unit = if slices <= 1 || kmer_mem == 0 { usize::MAX / 4 } else { (kmer_mem / (slices - 1)).max(1) };
+    debruijn::verif_hooks::set_mem_unit(Some(unit));
+    let r = real_table_inner::<K>(&seqs, stranded);
+    debruijn::verif_hooks::set_mem_unit(None);
+    r
+}
+
+fn real_table_inner<K: Kmer>(seqs: &[(DnaBytes, Exts, u8)], stranded: bool) -> Result<BTreeMap<Seq, TableRow>, String> {
+    let (a, _) = filter_kmers::<K, DnaBytes, u8, u16, CountFilter>(seqs, &Box::new(CountFilter::new(1)), stranded, false, 1);
     let (b, _) =
-        filter_kmers::<K, DnaBytes, u8, Vec<u8>, CountFilterSet<u8>>(&seqs, &Box::new(CountFilterSet::new(1)), stranded, false, 1);
+        filter_kmers::<K, DnaBytes, u8, Vec<u8>, CountFilterSet<u8>>(seqs, &Box::new(CountFilterSet::new(1)), stranded, false, 1);
     let mut out: BTreeMap<Seq, TableRow> = BTreeMap::new();
     for (k, e, c) in a.iter() {
         if out.insert(kseq(k), (e.val, *c, Vec::new())).is_some() {
@@ -79,6 +90,25 @@ fn graph_nodes<K: Kmer + Send + Sync>(reads: &[Read], c: &Case, stranded: bool) 
             let singles = crate::props::c09::split_nodes(&nodes, &seen, k, stranded, true, c.g.aux);
             let base: BaseGraph<K, SumPay> = crate::props::c09::base_from_nodes(&singles, stranded);
             compress_graph(stranded, &SumPay::spec(), base.finish(), None)
+        }
+        4 => {
+            // the crate's own minimizer sharding (arbitrary permutation in half of the cases); counts as payload
+            let perm = if c.g.aux & 8 == 0 { Some(c.g.aux) } else { None };
+            let g16 = crate::props::c04::msp_graph::<K, crate::ktypes::Kmer3>(reads, stranded, perm, min, (c.g.aux % 5) as u8);
+            let mut base: BaseGraph<K, SumPay> = BaseGraph::new(stranded);
+            for i in 0..g16.len() {
+                let n = g16.get_node(i);
+                base.add(
+                    n.sequence().bytes().iter(),
+                    n.exts(),
+                    SumPay {
+                        count: *n.data() as u64,
+                        xh: 0,
+                        n: 0,
+                    },
+                );
+            }
+            base.finish_serial()
         }
         _ => {
             let shards = model::shard_reads(reads, k, stranded, 2 + (c.g.aux % 3) as usize, c.g.aux);
@@ -132,6 +162,7 @@ pub fn check<K: Kmer + Send + Sync>(c: &Case) -> CheckResult {
         r.exts = c.bexts[i % c.bexts.len()];
     }
     let n = reads.len();
+    let slices: usize = [1usize, 1, 2, 3, 7, 64, 300][(c.mask as usize >> 20) % 7];
     if !stranded {
         // R' : reverse-complement the masked reads (boundary extensions with them)
         let flipped: Vec<Read> = reads
@@ -150,8 +181,8 @@ pub fn check<K: Kmer + Send + Sync>(c: &Case) -> CheckResult {
             })
             .collect();
         let nflip = (0..n).filter(|i| (c.mask >> (i % 32)) & 1 == 1).count();
-        let t1 = real_table::<K>(&reads, false)?;
-        let t2 = real_table::<K>(&flipped, false)?;
+        let t1 = real_table::<K>(&reads, false, 1)?;
+        let t2 = real_table::<K>(&flipped, false, slices)?;
         for key in t1.keys() {
             let r = rc(key);
             if r.as_slice() < key.as_slice() {
@@ -224,9 +255,11 @@ pub fn check<K: Kmer + Send + Sync>(c: &Case) -> CheckResult {
             .label(c.pipeline == 0, "pipeline_direct")
             .label(c.pipeline == 1, "pipeline_sorted_slice")
             .label(c.pipeline == 2, "pipeline_recompressed")
-            .label(c.pipeline == 3, "pipeline_sharded"))
+            .label(c.pipeline == 3, "pipeline_sharded")
+            .label(c.pipeline == 4, "pipeline_msp_sharded")
+            .label(slices > 1, "multi_pass_table"))
     } else {
-        let t = real_table::<K>(&reads, true)?;
+        let t = real_table::<K>(&reads, true, slices)?;
         let mt = model::build_table(&reads, k, true);
         let fwd: BTreeSet<&Seq> = mt.keys().collect();
         let got: BTreeSet<&Seq> = t.keys().collect();
@@ -260,6 +293,7 @@ pub fn check<K: Kmer + Send + Sync>(c: &Case) -> CheckResult {
         let w = w_of(&nodes, k, true);
         let mtp = model::build_table(&plain, k, true);
         let min = if c.pipeline == 3 { 1 } else { c.g.min_count() };
+        let _ = slices;
         let retained = |s: &Seq| mtp.get(s).map(|e| e.count() >= min).unwrap_or(false);
         let want = model::read_kp1s(&plain, k, true, &retained);
         if w != want {
